@@ -76,8 +76,16 @@ def run(ctx, progs):
                    ("BASE3", "split points are differences of first-segment lengths"), ("TWIN", "shared/mutable range views are one algorithm")):
         ctx.rule(r_, t_ + " (decided for symbolic N and T)")
     ctx.rule("SUB1", "REQUIRES(b <= a) of every usize subtraction a - b discharged by guard facts / INV / callers (transparent operands)")
+    # "without ... bounds panic", boundary arguments included: the feasible explicit panic sites of every public entry are
+    # the documented ones. The reachability analysis is symbolic in N and T, so its verdict is the one for N = usize::MAX / ZST.
+    for r_, t_ in (("PAN1", "feasible explicit panic sites per public entry == documented table"), ("PAN2", "range arguments of reviewed non-panicking shape"),
+                   ("PAN3", "no buffer write on a path from a panicking entry to its panic site")):
+        ctx.rule(r_, t_ + " (decided for symbolic N and T)")
     for cfg, prog in progs.items():
         pos1(ctx, prog, cfg)
+        from . import c11 as _c11
+
+        _c11.pan(ctx, prog, cfg)
         eng = shared.run_mod1(prog)
         shared.report_requires(ctx, eng, "MOD1", cfg)
         zst1(ctx, prog, cfg)
